@@ -18,7 +18,10 @@ let commas_to_dots x = String.map (fun c -> if c = ',' then '.' else c) x
 
 let show_val p (b : ascii list) =
   match p with
-  | PTarget -> "r:" ^ commas_to_dots (of_str b)
+  | PTarget ->
+    (* a marshalled TargetResult is never empty (it carries the change hash): payload = 'r' ^ csv *)
+    let x = of_str b in
+    "r:" ^ commas_to_dots (if String.length x > 0 then String.sub x 1 (String.length x - 1) else x)
   | _ -> hex (of_str b)
 
 let obs (m : fsmap) =
@@ -49,8 +52,8 @@ let parse_op (o : string) : wop option =
     Some (Do (machine_of m, mode_of md, a))
   | "r" :: m :: md :: verb :: k :: rest ->
     let a = match verb, rest with
-      | "write", [r] -> ASet (PTarget, s k, s (dots_to_commas r))
-      | "write", [] -> ASet (PTarget, s k, [])
+      | "write", [r] -> ASet (PTarget, s k, s ("r" ^ dots_to_commas r))
+      | "write", [] -> ASet (PTarget, s k, s "r")
       | "load", _ -> AGet (PTarget, s k)
       | "has", _ -> AExists (PTarget, s k)
       | _ -> failwith "result op" in
@@ -92,8 +95,8 @@ let parse_l1_op (o : string) : op =
   | ["B"; d; chunks] ->
     OBlob (s d, List.map (fun c -> s (unhex c)) (if chunks = "" then [] else String.split_on_char '.' chunks))
   | ["B"; d] -> OBlob (s d, [])
-  | ["R"; k; r] -> OResult (s k, [s (dots_to_commas r)])
-  | ["R"; k] -> OResult (s k, [])
+  | ["R"; k; r] -> OResult (s k, [s ("r" ^ dots_to_commas r)])
+  | ["R"; k] -> OResult (s k, [s "r"])
   | _ -> failwith ("l1 op " ^ o)
 
 let show_state nthreads (st : state) =
